@@ -1641,52 +1641,50 @@ namespace igris
         template <typename... Args>
         iterator emplace(const_iterator pos, Args &&... args)
         {
-            // TODO insert optimization
             size_t _pos = pos - m_data;
 
-            reserve(m_size + 1);
+            // built first: the arguments may refer to an element of this vector
+            T value(igris::forward<Args>(args)...);
+            make_gap(_pos, 1);
+            igris::move_constructor(m_data + _pos, igris::move(value));
             m_size++;
 
-            iterator first = m_data + _pos;
-            iterator last = igris::prev((iterator)end());
-            igris::move_backward(first, last, end());
-            new (first) T(igris::forward<Args>(args)...);
-
-            return first;
+            return m_data + _pos;
         }
 
         iterator insert(const_iterator pos, const T &value)
         {
-            // TODO insert optimization
             size_t _pos = pos - m_data;
 
-            reserve(m_size + 1);
+            // copied first: value may be an element of this vector
+            T copy(value);
+            make_gap(_pos, 1);
+            igris::move_constructor(m_data + _pos, igris::move(copy));
             m_size++;
 
-            iterator first = m_data + _pos;
-            iterator last = igris::prev((iterator)end());
-            igris::move_backward(first, last, (iterator)end());
-            *first = value;
-
-            return first;
+            return m_data + _pos;
         }
 
         iterator insert(iterator pos, const_iterator first, const_iterator last)
         {
             size_t _pos = pos - m_data;
-            size_t _first = first - m_data;
-            size_t _last = last - m_data;
+            size_t sz = last - first;
 
-            size_t sz = _last - _first;
-            reserve(m_size + sz);
+            // The range is copied before anything moves: it belongs to another
+            // container (or to this one) and must not be looked at through
+            // this vector's buffer after a reallocation or a shift.
+            vector tmp;
+            tmp.reserve(sz);
+            for (const_iterator it = first; it != last; ++it)
+                tmp.push_back(*it);
+
+            make_gap(_pos, sz);
+            for (size_t i = 0; i < sz; ++i)
+                igris::move_constructor(m_data + _pos + i,
+                                        igris::move(tmp.m_data[i]));
             m_size += sz;
 
-            iterator first_it = m_data + _pos;
-            iterator last_it = igris::prev((iterator)end(), sz);
-            igris::move_backward(first_it, last_it, (iterator)end());
-            igris::copy(m_data + _first, m_data + _last, first_it);
-
-            return first_it;
+            return m_data + _pos;
         }
 
         iterator insert(int pos, const T &value)
@@ -1721,20 +1719,27 @@ namespace igris
             m_size = n;
         }
 
-        void erase(iterator newend)
+        iterator erase(iterator pos)
         {
-            m_size = newend - m_data;
+            return erase(pos, pos + 1);
         }
 
-        void erase(iterator first, iterator last)
+        iterator erase(iterator first, iterator last)
         {
             size_t sz = last - first;
-            for (size_t i = 0; i < sz; ++i)
+            // close the gap by move-assigning onto live elements, then
+            // destroy what is left over at the end
+            iterator out = first;
+            for (iterator it = last; it != end(); ++it, ++out)
             {
-                igris::destructor(first + i);
+                *out = igris::move(*it);
             }
-            igris::move(last, end(), first);
+            for (iterator it = out; it != end(); ++it)
+            {
+                igris::destructor(it);
+            }
             m_size -= sz;
+            return first;
         }
 
         // T &at(size_t num)
@@ -1778,6 +1783,23 @@ namespace igris
         // }
 
     protected:
+        // Makes room for count elements at index pos: the elements from pos on
+        // are moved count slots up (move-constructed into raw memory, the
+        // originals destroyed), so that afterwards slots [pos, pos + count) are
+        // raw memory for the caller to construct into. m_size is left alone.
+        void make_gap(size_t pos, size_t count)
+        {
+            reserve(m_size + count);
+            if (count == 0)
+                return;
+            for (size_t i = m_size; i > pos; --i)
+            {
+                igris::move_constructor(m_data + i - 1 + count,
+                                        igris::move(m_data[i - 1]));
+                igris::destructor(m_data + i - 1);
+            }
+        }
+
         unsigned char changeBuffer(size_t sz)
         {
             size_t oldcapacity = m_capacity;
